@@ -7,7 +7,13 @@
   the bit patterns of its control points — so a wrong `from`, tolerance or space still shows.
 
   CASE args: `n tol m11 m12 m21 m22 m31 m32 <prog> <advice>`,
-  prog = `B x y a*n | L x y a*n | Q cx cy x y a*n | C c1x c1y c2x c2y x y a*n | E 0/1`,
+  prog = `B x y a*n | L x y a*n | Q cx cy x y a*n | C c1x c1y c2x c2y x y a*n | E 0/1` and the
+  PROVIDED methods of `PathBuilder` (`Model/Path/AdaptersHelpers.lean`: `Cmd`, parsed by
+  `parseCmds`): `Z` close, `pb/pl/pq/pc/pe` path_event, `eb/el/eq/ec/ee` event, `PG` add_polygon,
+  `PT` add_point, `LS` add_line_segment, `RC` add_rectangle, `RR` add_rounded_rectangle, `CI`
+  add_circle, `EL` add_ellipse, `X` (concatenation mark, no call).  The routes below run on
+  `expandProg cmds`: the primitive calls the default bodies make on the adapter that receives the
+  helper call (no adapter overrides a provided method),
   advice = `| FQ/FC <ctrl points> k (fx fy tx ty t)*k` and `| IQ/IC <ctrl points> k (x y)*k`.
   Family `e2e` uses the C09 model of the flattener instead of the advice (end-to-end tie):
   `flatBuilderC` / `flatIterC` / `flatAttrIterC` of `Model/Path/AdaptersConcrete.lean`.
@@ -19,6 +25,7 @@ import LyonVerif.Model.Geom.Basic
 import LyonVerif.Model.Geom.Flatten
 import LyonVerif.Model.Path.Adapters
 import LyonVerif.Model.Path.AdaptersConcrete
+import LyonVerif.Model.Path.AdaptersHelpers
 
 namespace Lyon.Drive.C16
 open Lyon Lyon.Drive Lyon.Path Lyon.Adapt
@@ -58,6 +65,9 @@ structure Inp where
   n : Nat
   tol : F
   m : Xf F
+  /-- the program as sent: primitives and provided helper methods -/
+  cmds : List (Cmd F)
+  /-- the primitive calls an adapter receives for it: `expandProg cmds` -/
   prog : List ACall
   adv : Advice
 
@@ -71,6 +81,91 @@ partial def parseProg (n : Nat) : List String → List ACall
   | "C" :: ax :: ay :: bx :: by_ :: x :: y :: r =>
     let (a, r') := takeAttrs n r; .cubic (pt ax ay) (pt bx by_) (pt x y) a :: parseProg n r'
   | "E" :: c :: r => .end_ (c == "1") :: parseProg n r
+  | _ => []
+
+/-- `k` points -/
+partial def takePts : Nat → List String → List Pn × List String
+  | 0, r => ([], r)
+  | k+1, x :: y :: r => let (l, r') := takePts k r; (pt x y :: l, r')
+  | _, _ => ([], [])
+
+def isOne (s : String) : Bool := s == "1"
+
+/-- a program with helper calls (`put_cmds` of the harness) -/
+partial def parseCmds (n : Nat) : List String → List (Cmd F)
+  | "B" :: x :: y :: r => let (a, r') := takeAttrs n r; .prim (.begin (pt x y) a) :: parseCmds n r'
+  | "L" :: x :: y :: r => let (a, r') := takeAttrs n r; .prim (.line (pt x y) a) :: parseCmds n r'
+  | "Q" :: cx :: cy :: x :: y :: r =>
+    let (a, r') := takeAttrs n r; .prim (.quad (pt cx cy) (pt x y) a) :: parseCmds n r'
+  | "C" :: ax :: ay :: bx :: by_ :: x :: y :: r =>
+    let (a, r') := takeAttrs n r
+    .prim (.cubic (pt ax ay) (pt bx by_) (pt x y) a) :: parseCmds n r'
+  | "E" :: c :: r => .prim (.end_ (isOne c)) :: parseCmds n r
+  | "Z" :: r => .close :: parseCmds n r
+  | "X" :: r => .cut :: parseCmds n r
+  -- path_event(event, attributes)
+  | "pb" :: x :: y :: r => let (a, r') := takeAttrs n r; .pathEvent (.begin (pt x y)) a :: parseCmds n r'
+  | "pl" :: fx_ :: fy :: x :: y :: r =>
+    let (a, r') := takeAttrs n r; .pathEvent (.line (pt fx_ fy) (pt x y)) a :: parseCmds n r'
+  | "pq" :: fx_ :: fy :: cx :: cy :: x :: y :: r =>
+    let (a, r') := takeAttrs n r
+    .pathEvent (.quad (pt fx_ fy) (pt cx cy) (pt x y)) a :: parseCmds n r'
+  | "pc" :: fx_ :: fy :: ax :: ay :: bx :: by_ :: x :: y :: r =>
+    let (a, r') := takeAttrs n r
+    .pathEvent (.cubic (pt fx_ fy) (pt ax ay) (pt bx by_) (pt x y)) a :: parseCmds n r'
+  | "pe" :: lx :: ly :: fx_ :: fy :: c :: r =>
+    let (a, r') := takeAttrs n r
+    .pathEvent (.end_ (pt lx ly) (pt fx_ fy) (isOne c)) a :: parseCmds n r'
+  -- event(Event<(Point, Attributes), Point>)
+  | "eb" :: x :: y :: r => let (a, r') := takeAttrs n r; .event (.begin (pt x y, a)) :: parseCmds n r'
+  | "el" :: fx_ :: fy :: r =>
+    let (fa, r1) := takeAttrs n r
+    match r1 with
+    | x :: y :: r2 =>
+      let (a, r') := takeAttrs n r2
+      .event (.line (pt fx_ fy, fa) (pt x y, a)) :: parseCmds n r'
+    | _ => []
+  | "eq" :: fx_ :: fy :: r =>
+    let (fa, r1) := takeAttrs n r
+    match r1 with
+    | cx :: cy :: x :: y :: r2 =>
+      let (a, r') := takeAttrs n r2
+      .event (.quad (pt fx_ fy, fa) (pt cx cy, []) (pt x y, a)) :: parseCmds n r'
+    | _ => []
+  | "ec" :: fx_ :: fy :: r =>
+    let (fa, r1) := takeAttrs n r
+    match r1 with
+    | ax :: ay :: bx :: by_ :: x :: y :: r2 =>
+      let (a, r') := takeAttrs n r2
+      .event (.cubic (pt fx_ fy, fa) (pt ax ay, []) (pt bx by_, []) (pt x y, a)) :: parseCmds n r'
+    | _ => []
+  | "ee" :: lx :: ly :: r =>
+    let (la, r1) := takeAttrs n r
+    match r1 with
+    | fx_ :: fy :: r2 =>
+      let (fa, r3) := takeAttrs n r2
+      match r3 with
+      | c :: r' => .event (.end_ (pt lx ly, la) (pt fx_ fy, fa) (isOne c)) :: parseCmds n r'
+      | _ => []
+    | _ => []
+  -- add_* helpers
+  | "PG" :: k :: c :: r =>
+    let (pts, r1) := takePts k.toNat! r
+    let (a, r') := takeAttrs n r1
+    .polygon pts (isOne c) a :: parseCmds n r'
+  | "PT" :: x :: y :: r => let (a, r') := takeAttrs n r; .point (pt x y) a :: parseCmds n r'
+  | "LS" :: x :: y :: u :: v :: r =>
+    let (a, r') := takeAttrs n r; .segment (pt x y) (pt u v) a :: parseCmds n r'
+  | "RC" :: x :: y :: u :: v :: w :: r =>
+    let (a, r') := takeAttrs n r; .rectangle (pt x y) (pt u v) (isOne w) a :: parseCmds n r'
+  | "RR" :: x :: y :: u :: v :: tl :: tr :: bl :: br :: w :: r =>
+    let (a, r') := takeAttrs n r
+    .roundedRectangle (pt x y) (pt u v) ⟨h tl, h tr, h bl, h br⟩ (isOne w) a :: parseCmds n r'
+  | "CI" :: x :: y :: rad :: w :: r =>
+    let (a, r') := takeAttrs n r; .circle (pt x y) (h rad) (isOne w) a :: parseCmds n r'
+  | "EL" :: x :: y :: rx :: ry :: rot :: w :: r =>
+    let (a, r') := takeAttrs n r
+    .ellipse (pt x y) (pt rx ry) (h rot) (isOne w) a :: parseCmds n r'
   | _ => []
 
 partial def parseSegs : Nat → List String → List (FSeg Pn F) × List String
@@ -111,7 +206,8 @@ def parse (v : Array String) : Inp :=
   let advToks := toks.dropWhile (· != "|")
   { n := n, tol := rd v 1,
     m := ⟨rd v 2, rd v 3, rd v 4, rd v 5, rd v 6, rd v 7⟩,
-    prog := parseProg n progToks,
+    cmds := parseCmds n progToks,
+    prog := expandProg (parseCmds n progToks),
     adv := parseAdvice ⟨[], []⟩ advToks }
 
 /-! ### printing -/
@@ -165,26 +261,36 @@ def bn (i : Inp) : String :=
 def na (i : Inp) : String :=
   let F := cbFlattener i.adv
   let p0 : List ACall := noAttrBuilder i.prog
+  let p1 : List ACall := expandProg (i.cmds.map noAttrCmd)
   unwords ("f" :: fcalls (flatBuilder F origin 0 p0)
     ++ "t" :: fcalls (xfBuilder i.m.apply p0)
-    ++ "ft" :: fcalls (xfBuilder i.m.apply (flatBuilder F origin 0 p0)))
+    ++ "ft" :: fcalls (xfBuilder i.m.apply (flatBuilder F origin 0 p0))
+    -- through NoAttributes' inherent methods: each forwards to the wrapped adapter's provided
+    -- method with NO_ATTRIBUTES (`noAttrCmd`)
+    ++ "fi" :: fcalls (flatBuilder F origin 0 p1)
+    ++ "ti" :: fcalls (xfBuilder i.m.apply p1)
+    ++ "fti" :: fcalls (xfBuilder i.m.apply (flatBuilder F origin 0 p1)))
 
 def pb (i : Inp) : String :=
   let F := cbFlattener i.adv
-  let p0 : List ACall := noAttrBuilder i.prog
+  let p0 : List ACall := expandProg (i.cmds.map noAttrCmd)
   unwords ("f" :: fevs (specEvents (flatBuilder F origin 0 p0))
     ++ "fa" :: faevs (attrEvents (flatBuilder F origin i.n i.prog))
-    ++ "ta" :: faevs (attrEvents (xfBuilder i.m.apply i.prog)))
+    ++ "ta" :: faevs (attrEvents (xfBuilder i.m.apply i.prog))
+    ++ "t" :: fevs (specEvents (xfBuilder i.m.apply p0)))
 
 def it (i : Inp) : String :=
   unwords ("f" :: fevs (flatIter (itFlattener i.adv) (specEvents i.prog))
     ++ "a" :: faevs (flatAttrIter (cbFlattener i.adv) (attrEvents i.prog)))
 
-/-- the stored route: `Path::builder_with_attributes(n)` storage (C14 model), `apply_transform`
-on it, read back with `iter_with_attributes` -/
+/-- the stored route: `Path::builder_with_attributes(n)` storage (C14 model) — put together
+piece by piece with `extend_from_paths` where the program has `cut` marks (`storePieces` over
+`piecesOf`, exactly as `build_path` of the harness does; without marks this is
+`buildWithAttributes`) —, `apply_transform` on it, read back with `iter_with_attributes` -/
 def storedXf (i : Inp) : List String :=
-  let prog : List (Call (Pt F) (List F)) := i.prog.map (mapCall toPt)
-  match buildWithAttributes i.n prog with
+  let conv (cs : List (Cmd F)) : List (Call (Pt F) (List F)) := (expandProg cs).map (mapCall toPt)
+  match storePieces i.n (BuilderWithAttributes.new i.n) []
+      ((piecesOf i.cmds).map fun p => (conv p.1, p.2)) with
   | none => ["attr-count-panic"]
   | some path =>
     match (applyTransform (onPt i.m.apply) path).bind PathData.iterWithAttributes with
